@@ -92,3 +92,49 @@ def process_packet(n):
 
 
 PROCESS = [process_packet(n) for n in range(4)]
+
+
+# ---- a transport fault: the frame never comes back (socket error, timeout of
+# the retries).  Every request still pending fails with THAT fault; none is
+# told "the bus did not process your datagram" (EtherCatError), which callers
+# such as find_free_address read as "no terminal answered".
+class RoundtripFault(Contract_):
+    inline = False
+    qualname = "ebpfcat.ethercat:EtherCat.roundtrip_packet"
+    loops = {}
+
+    def apply(self, ex, args, kwargs, frame, node):
+        ex.raise_builtin(OSError, "network is down")
+
+
+def fault_outcome(before, after):
+    if before.state != 0:
+        return after.state == before.state
+    return after.state == 3 and isinstance(after.exc, OSError) and not isinstance(after.exc, EtherCatError)
+
+
+def process_packet_fault(n):
+    return Contract(
+        EtherCat.process_packet,
+        name=f"EtherCat.process_packet<{n} requests, transport fault>",
+        params=dict(self=T.Obj(EtherCat), dgrams=requests(n), packet=T.Obj(Packet), resp=T.Bytes),
+        requires={"windows": "windows_ok(dgrams, len(resp))"},
+        raises=[Raises(OSError, when="True", ensures={
+            "pending_requests_fail_with_the_fault_itself":
+                "all(fault_outcome(old.dgrams[i][2], dgrams[i][2]) for i in range(len(dgrams)))"})],
+        modifies=None)
+
+
+def verify_faults(api, rep, replay):
+    """verify process_packet under the faulting environment (the registry
+    entry of roundtrip_packet is swapped for the duration)"""
+    saved = REGISTRY.get(RoundtripFault.qualname)
+    saved_pp = REGISTRY.get(PROCESS[-1].qualname)
+    REGISTRY[RoundtripFault.qualname] = RoundtripFault()
+    try:
+        for n in (1, 2):
+            c = process_packet_fault(n)
+            api.verify(c, rep, quiet=True, replay=lambda nm, i, nt, c=c: replay(c, nm, i, nt))
+    finally:
+        REGISTRY[RoundtripFault.qualname] = saved
+        REGISTRY[PROCESS[-1].qualname] = saved_pp
